@@ -1,7 +1,7 @@
 (* C17 — proofs over C17/Model.v (reusing C09/StopProofs.v for the user tree). *)
 From Coq Require Import List Bool Arith Lia.
 Import ListNotations.
-From GV Require Import C09.StopModel C09.StopProofs C17.Model.
+From GV Require Import C09.StopModel C09.StopProofs C09.StopAll C17.Model.
 
 Lemma gupd_same f g x : gupd f g x g = x.
 Proof. unfold gupd. now rewrite Nat.eqb_refl. Qed.
@@ -353,4 +353,38 @@ Proof.
   exists s. split; [reflexivity|]. split; [eapply run_rf_reach; [constructor|exact E]|].
   vm_compute in E. injection E as <-. repeat split; try reflexivity.
   apply chain_more with (c := 1); simpl; [auto|]. apply chain_one. simpl. auto.
+Qed.
+
+(* ---------------------------------------------------------------- every running user actor *)
+(* executions in which no children snapshot is taken while a SpawnChild of that actor is in flight *)
+Definition step_ns (s : sys) (l : Model.label) : bool :=
+  match l with LTree tl => StopAll.snap_ok_b (tree s) tl | _ => true end.
+
+Inductive reach_ns (ws : bool) : sys -> Prop :=
+| reach_ns_init : reach_ns ws sys0
+| reach_ns_step s l s' : reach_ns ws s -> step_ns s l = true -> Model.step ws s l = Some s' -> reach_ns ws s'.
+
+Lemma reach_ns_reach ws s : reach_ns ws s -> Model.reach ws s.
+Proof. induction 1; [constructor|econstructor; eauto]. Qed.
+
+Lemma tree_reach_ns ws s : reach_ns ws s -> StopAll.reach_ns ws (tree s).
+Proof.
+  induction 1 as [|s l s' Hr IH Hok Hs]; [constructor|].
+  destruct l; simpl in Hs, Hok;
+    repeat match type of Hs with
+    | (if ?c then _ else _) = Some _ => destruct c eqn:?; try discriminate
+    | match ?x with _ => _ end = Some _ => destruct x eqn:?; try discriminate
+    | (let '(_, _) := ?x in _) = Some _ => destruct x eqn:?
+    end; try (injection Hs as <-; simpl; try assumption; fail).
+  injection Hs as <-. simpl. econstructor; eauto.
+Qed.
+
+(* PostStop for EVERY user actor whose spawn has returned, anywhere below the user guardian *)
+Theorem every_user_actor_stopped s : reach_ns true s -> tree_stopped (Model.ph s) = true ->
+  forall d, StopAll.desc (tree s) 0 d -> StopAll.complete (acts (tree s) d) ->
+  running (acts (tree s) d) = false /\ In (EPostE d) (trace (tree s)).
+Proof.
+  intros R Hp. apply (StopAll.all_descendants_stopped true).
+  - apply StopAll.reach_ns_s, tree_reach_ns, R.
+  - apply (guardian_done true); [apply reach_ns_reach, R|assumption].
 Qed.
